@@ -138,8 +138,10 @@ def _install(fs):
     sys.modules["netCDF4"] = nc4
 
 
-def _ctor(cls, name, exists, force, **kw):
-    fs = FS(lambda p: exists)
+def _ctor(cls, name, exists, force, upper=False, **kw):
+    if upper:                      # the target path is case-sensitive and may contain directories
+        name = "Dir_A/" + name[0].upper() + name[1:]
+    fs = FS(lambda p: exists and p == name)    # only the EXACT target path exists
     _install(fs)
     try:
         cls(name, mode="w", force_overwrite=force, **kw)
@@ -163,84 +165,84 @@ _CLASSES = {
 }
 
 
-def ctor_h5(exists: bool, force: bool) -> bool:
+def ctor_h5(exists: bool, force: bool, upper: bool) -> bool:
     """
     post: __return__
     """
-    return _ctor(*_CLASSES["h5"][:2], exists, force)
+    return _ctor(*_CLASSES["h5"][:2], exists, force, upper)
 
 
-def ctor_nc(exists: bool, force: bool) -> bool:
+def ctor_nc(exists: bool, force: bool, upper: bool) -> bool:
     """
     post: __return__
     """
-    return _ctor(*_CLASSES["nc"][:2], exists, force)
+    return _ctor(*_CLASSES["nc"][:2], exists, force, upper)
 
 
-def ctor_mdcrd(exists: bool, force: bool) -> bool:
+def ctor_mdcrd(exists: bool, force: bool, upper: bool) -> bool:
     """
     post: __return__
     """
-    return _ctor(*_CLASSES["mdcrd"][:2], exists, force)
+    return _ctor(*_CLASSES["mdcrd"][:2], exists, force, upper)
 
 
-def ctor_xyz(exists: bool, force: bool, gz: bool) -> bool:
+def ctor_xyz(exists: bool, force: bool, gz: bool, upper: bool) -> bool:
     """
     post: __return__
     """
-    return _ctor(*_CLASSES["xyzgz" if gz else "xyz"][:2], exists, force)
+    return _ctor(*_CLASSES["xyzgz" if gz else "xyz"][:2], exists, force, upper)
 
 
-def ctor_lammpstrj(exists: bool, force: bool) -> bool:
+def ctor_lammpstrj(exists: bool, force: bool, upper: bool) -> bool:
     """
     post: __return__
     """
-    return _ctor(*_CLASSES["lammpstrj"][:2], exists, force)
+    return _ctor(*_CLASSES["lammpstrj"][:2], exists, force, upper)
 
 
-def ctor_gro(exists: bool, force: bool) -> bool:
+def ctor_gro(exists: bool, force: bool, upper: bool) -> bool:
     """
     post: __return__
     """
-    return _ctor(*_CLASSES["gro"][:2], exists, force)
+    return _ctor(*_CLASSES["gro"][:2], exists, force, upper)
 
 
-def ctor_pdb(exists: bool, force: bool, gz: bool) -> bool:
+def ctor_pdb(exists: bool, force: bool, gz: bool, upper: bool) -> bool:
     """
     post: __return__
     """
-    return _ctor(*_CLASSES["pdbgz" if gz else "pdb"][:2], exists, force)
+    return _ctor(*_CLASSES["pdbgz" if gz else "pdb"][:2], exists, force, upper)
 
 
-def ctor_rst7(exists: bool, force: bool) -> bool:
+def ctor_rst7(exists: bool, force: bool, upper: bool) -> bool:
     """
     post: __return__
     """
-    return _ctor(*_CLASSES["rst7"][:2], exists, force)
+    return _ctor(*_CLASSES["rst7"][:2], exists, force, upper)
 
 
-def ctor_ncrst(exists: bool, force: bool) -> bool:
+def ctor_ncrst(exists: bool, force: bool, upper: bool) -> bool:
     """
     post: __return__
     """
-    return _ctor(*_CLASSES["ncrst"][:2], exists, force)
+    return _ctor(*_CLASSES["ncrst"][:2], exists, force, upper)
 
 
-def ctor_lh5(exists: bool, force: bool) -> bool:
+def ctor_lh5(exists: bool, force: bool, upper: bool) -> bool:
     """
     post: __return__
     """
-    return _ctor(*_CLASSES["lh5"][:2], exists, force)
+    return _ctor(*_CLASSES["lh5"][:2], exists, force, upper)
 
 
-def open_maybe_zipped_w(exists: bool, force: bool, ext: int) -> bool:
+def open_maybe_zipped_w(exists: bool, force: bool, ext: int, upper: bool) -> bool:
     """
     pre: 0 <= ext <= 2
     post: __return__
     """
-    fs = FS(lambda p: exists)
+    name = ("Dir_A/File.TXT" if upper else "f.txt") + ("", ".gz", ".bz2")[conc(ext, 0, 2)]
+    fs = FS(lambda p: exists and p == name)
     _install(fs)
-    name = "f.txt" + ("", ".gz", ".bz2")[conc(ext, 0, 2)]
     try:
         _zip.open_maybe_zipped(name, "w", force_overwrite=force)
         raised = False
@@ -248,7 +250,7 @@ def open_maybe_zipped_w(exists: bool, force: bool, ext: int) -> bool:
         raised = True
     if exists and not force:
         return raised and fs.log == []
-    return (not raised) and len(fs.log) == 1 and fs.log[0][2] in ("w", "wb")
+    return (not raised) and len(fs.log) == 1 and fs.log[0][2] in ("w", "wb") and fs.log[0][1] == name
 
 
 # ------------------------------------------------------------------ md.open and Trajectory.save*: the flag reaches the class
